@@ -89,8 +89,9 @@ CLAIMED = {
               "re-execution must be unaffected and nobody may deadlock. "
               "Schedules are sampled: evidence, not proof."),
         design_ref="DESIGN.md 3.4",
-        note=("Pre-emption granularity is a source line. One known finding (F14, unsynchronised reload with a file "
-              "replaced during use) is filed under two exact signatures. "
+        note=("Pre-emption granularity is a source line. Locks that chameleon creates are the scheduler's; the import "
+              "system's per-module locks are not (seeded change C14-n is out of reach). Asynchronous exceptions are "
+              "delivered only where CPython could deliver them (never at try: / with lines). "
               "Trusted: the run-alone execution of the same operation (after the same prior history) as the expected value."),
         technique="deterministic simulation: baton-scheduled real threads with sys.monitoring line pre-emption and PCT; cross-process replay under different hash seeds",
     ),
